@@ -60,7 +60,7 @@ ANCHORS = ['pfhedge.features.features:UnderlierSpot.get',
            'pfhedge.nn.functional:pl']
 PYTEST_WORKLOAD = True  # thorough tier also runs /repo/tests with these passive monitors attached (DESIGN.md 2.7)
 DECIDING = ["buffer.untouched", "args.untouched", "history.independent"]
-REQUIRED_BRANCHES = ["feature.log_all_steps", "feature.module_output", "listed.spot", "op.fit", "op.to", "op.price", "seq.dtype_switch",
+REQUIRED_BRANCHES = ["seq.listed_hedge", "feature.log_all_steps", "feature.module_output", "listed.spot", "op.fit", "op.to", "op.price", "seq.dtype_switch",
                      "seq.path_count_switch"]
 
 _CTX = None
@@ -303,6 +303,18 @@ def drv_functional(ctx, k, rng):
     F.box_muller(u1, u2)
 
 
+def _make_listed(d):
+    from pfhedge.instruments import EuropeanOption
+
+    e = EuropeanOption(d.ul(), call=True, strike=d._listed_strike, maturity=d.maturity)
+    e.list(P.bs_pricer, cost=1e-3)
+    return e
+
+
+def _hedge_of(d):
+    return None if d._listed is None else [d._listed]
+
+
 def _fresh(hedger, names, dtype):
     h = Hedger(copy.deepcopy(hedger.model), [copy.deepcopy(n) if not isinstance(n, str) else n for n in names], criterion=copy.deepcopy(hedger.criterion))
     return h
@@ -325,9 +337,16 @@ def drv_sequences(ctx, k, rng):
     ders = []
     for i in range(3):
         dtype = pick(rng, [None, F64])
-        stock = P.make_stock(rng, pick(rng, ["brownian", "heston", "merton", "kou"]), dtype=dtype, dt=1 / 250)
-        d = P.make_derivative(rng, stock, pick(rng, P.OPTIONS), n_steps=int(pick(rng, [2, 4, 7])), clauses=False)
-        d._n = int(pick(rng, [1, 3, 8]))
+        # same shapes with different step sizes / dtypes are deliberate: anything cached by shape alone goes stale
+        stock = P.make_stock(rng, pick(rng, ["brownian", "heston", "merton", "kou"]), dtype=dtype, dt=float(pick(rng, [1 / 250, 1 / 50])))
+        d = P.make_derivative(rng, stock, pick(rng, P.OPTIONS), n_steps=int(pick(rng, [2, 4, 4, 7])), clauses=False)
+        d._n = int(pick(rng, [1, 3, 3, 8]))
+        # a listed option on the same underlier, usable as the hedging instrument instead of the underlier itself
+        d._listed_strike = float(pick(rng, [0.95, 1.05]))
+        d._listed = None
+        if rng.random() < 0.5:
+            d._listed = _make_listed(d)
+            ctx.branch("seq.listed_hedge")
         ders.append(d)
     if len({str(d.ul().dtype) for d in ders}) > 1:
         ctx.branch("seq.dtype_switch")
@@ -366,28 +385,36 @@ def drv_sequences(ctx, k, rng):
             use(d)
             if op == "hedge":
                 with torch.no_grad():
-                    hedger.compute_hedge(d)
+                    hedger.compute_hedge(d, _hedge_of(d))
             elif op == "pl":
                 with torch.no_grad():
-                    hedger.compute_pl(d)
+                    hedger.compute_pl(d, _hedge_of(d))
             elif op == "loss":
-                hedger.compute_loss(d, n_paths=d._n)
+                hedger.compute_loss(d, _hedge_of(d), n_paths=d._n)
             elif op == "price":
                 ctx.branch("op.price")
-                hedger.price(d, n_paths=d._n)
+                hedger.price(d, _hedge_of(d), n_paths=d._n)
             elif op == "fit":
                 ctx.branch("op.fit")
-                hedger.fit(d, n_epochs=1, n_paths=max(d._n, 2), verbose=False, validation=bool(rng.random() < 0.5))
+                hedger.fit(d, _hedge_of(d), n_epochs=1, n_paths=max(d._n, 2), verbose=False, validation=bool(rng.random() < 0.5))
     D = ders[int(rng.integers(3))]
     use(D)
     mon = "history.independent"
     ctx.seen(mon)
+    # the underlier may also be re-simulated directly or through a sibling derivative: everything hanging off it must follow
+    if rng.random() < 0.5:
+        sib = pick(rng, [D.ul(), D])
+        if sib is D:
+            D.simulate(n_paths=D._n)
+        else:
+            sib.simulate(n_paths=D._n, time_horizon=D.maturity)
     with torch.no_grad():
-        h1 = hedger.compute_hedge(D)
-        p1 = hedger.compute_pl(D)
+        h1 = hedger.compute_hedge(D, _hedge_of(D))
+        p1 = hedger.compute_pl(D, _hedge_of(D))
         fresh = _fresh(hedger, names, None)
-        h2 = fresh.compute_hedge(D)
-        p2 = fresh.compute_pl(D)
+        fresh_hedge = None if D._listed is None else [_make_listed(D)]  # fresh instruments too: same contract, same underlier buffers
+        h2 = fresh.compute_hedge(D, fresh_hedge)
+        p2 = fresh.compute_pl(D, fresh_hedge)
         l1, l2 = hedger.criterion(p1), fresh.criterion(p2)
     ok = bit_equal(h1, h2) and bit_equal(p1, p2) and bit_equal(l1, l2)
     ctx.check(mon, ok, "history_dependence", f"after {seq} the hedger's result on derivative {ders.index(D)} differs from a fresh hedger with the same parameters",
